@@ -11,6 +11,7 @@ import builtins
 import errno
 import io
 import os
+import sys
 import shutil
 import tempfile
 from typing import Any, Dict, List, Optional
@@ -21,7 +22,13 @@ from . import core
 class Faults:
     """Fault schedule and counters shared by all file objects of one operation."""
 
-    def __init__(self, write_fail_at: Optional[int] = None, read_fail_at: Optional[int] = None, close_fails: bool = False, err: int = errno.EIO):
+    def __init__(self, write_fail_at: Optional[int] = None, read_fail_at: Optional[int] = None, close_fails: bool = False, err: int = errno.EIO,
+                 capacity: Optional[int] = None):
+        # capacity: the device is full after this many characters/bytes.  A buffered stream stores what fits and
+        # raises ENOSPC; a raw stream (attribute raw=True) stores what fits and *returns the short count*, as
+        # io.RawIOBase.write may, and raises ENOSPC only once nothing fits.
+        self.capacity = capacity
+        self.short_write_by: Optional[str] = None  # file name of the code that issued the short write
         self.write_fail_at = write_fail_at
         self.read_fail_at = read_fail_at
         self.close_fails = close_fails
@@ -36,6 +43,19 @@ class Faults:
         if self.write_fail_at is not None and self.writes == self.write_fail_at:
             self.fired.append(f"write#{self.writes}")
             raise OSError(self.err, os.strerror(self.err) + " (simulated)")
+
+    def room(self, pos: int, n: int, raw: bool, caller: str) -> int:
+        """How much of a write of n items at position pos the device takes."""
+        if self.capacity is None or pos + n <= self.capacity:
+            return n
+        fit = max(0, self.capacity - pos)
+        if raw and fit > 0:
+            self.fired.append(f"short-write@{pos}+{fit}/{n}")
+            self.short_write_by = caller
+            return fit
+        self.fired.append(f"enospc@{pos}")
+        self.partial = fit
+        return -1
 
     def on_read(self) -> None:
         self.reads += 1
@@ -145,6 +165,12 @@ class SimText(_SimBase):
         self.faults.on_write()
         if self._codec:
             s.encode(self._codec)  # UnicodeEncodeError like a real TextIOWrapper
+        fit = self.faults.room(self._pos, len(s), False, "")
+        if fit < 0:
+            part = s[: self.faults.partial]
+            self._buf = self._buf[: self._pos] + part + self._buf[self._pos + len(part):]
+            self._pos += len(part)
+            raise OSError(errno.ENOSPC, "No space left on device (simulated)")
         self._buf = self._buf[: self._pos] + s + self._buf[self._pos + len(s):]
         self._pos += len(s)
         return len(s)
@@ -197,6 +223,13 @@ class SimBytes(_SimBase):
             raise TypeError("a bytes-like object is required, not 'str'")
         self.faults.on_write()
         data = bytes(b)
+        fit = self.faults.room(self._pos, len(data), bool(getattr(self, "raw", False)), sys._getframe(1).f_code.co_filename)
+        if fit < 0:
+            part = data[: self.faults.partial]
+            self._buf[self._pos: self._pos + len(part)] = part
+            self._pos += len(part)
+            raise OSError(errno.ENOSPC, "No space left on device (simulated)")
+        data = data[:fit]
         self._buf[self._pos: self._pos + len(data)] = data
         self._pos += len(data)
         return len(data)
